@@ -6,7 +6,7 @@
    form clauses of C02 are about.  Elements are read as in SourceFmt.v (enc_fel: tag, localname, nsmap,
    attrib, children); local names are NCNames (no brace). *)
 From Coq Require Import List NArith ZArith Bool Arith Lia.
-From D2P Require Import Str Err Xml TableTypes Tables Fmt Bullets Merge Collector Walk PyVal Source SourceBase SourceFmt.
+From D2P Require Import Str Err Xml TableTypes Tables Fmt Bullets Merge Collector Walk PyVal Source SourceBase SourceElem.
 Import ListNotations.
 
 (* names below the form element: its children's local names and their attributes' local names hold no brace *)
